@@ -221,10 +221,35 @@ func genXfObj(t *rapid.T) xfObjCase {
 func checkXfObj(c xfObjCase, o *kit.Obs) error {
 	mat := &tagMat{id: 7}
 	var obj render3d.Object = &render3d.ColliderObject{Collider: c.Base.Build(), Material: mat}
-	for _, s := range c.Steps {
+	// every intermediate object stays alive: wrapping an object again must not change the object that was wrapped
+	objs := make([]render3d.Object, len(c.Steps))
+	for i, s := range c.Steps {
 		obj = wrap(obj, s)
+		objs[i] = obj
+	}
+	if err := checkXfChain(c, objs[len(objs)-1], c.Steps, c.Rays, mat, o, true); err != nil {
+		return err
 	}
 	full := gen.Xform3{Kind: "joined", Parts: c.Steps}
+	for i := 0; i+1 < len(objs); i++ {
+		// the rays of the case, carried from the final image back to this intermediate one
+		pre := gen.Xform3{Kind: "joined", Parts: c.Steps[:i+1]}
+		rays := make([]rayDesc, len(c.Rays))
+		for k, r := range c.Rays {
+			o0 := pre.RefApply(full.RefInverse(r.O))
+			o1 := pre.RefApply(full.RefInverse(r.O.Add(r.D)))
+			rays[k] = rayDesc{O: o0, D: o1.Sub(o0)}
+		}
+		if err := checkXfChain(c, objs[i], c.Steps[:i+1], rays, mat, &kit.Obs{}, false); err != nil {
+			return fmt.Errorf("intermediate object after %d of %d transforms, queried after it had been wrapped again: %w", i+1, len(objs), err)
+		}
+		o.Label("intermediate-object-rechecked")
+	}
+	return nil
+}
+
+func checkXfChain(c xfObjCase, obj render3d.Object, steps []gen.Xform3, caseRays []rayDesc, mat *tagMat, o *kit.Obs, main bool) error {
+	full := gen.Xform3{Kind: "joined", Parts: steps}
 	sim := similarity(full)
 	for k := range full.Kinds() {
 		o.Label("step:" + k)
@@ -287,7 +312,7 @@ func checkXfObj(c xfObjCase, o *kit.Obs) error {
 	}
 
 	nhit := 0
-	for _, r := range c.Rays {
+	for _, r := range caseRays {
 		// reference: pull the ray back with the reference arithmetic and intersect the analytic base shape
 		o0 := full.RefInverse(r.O)
 		d0 := full.RefInverse(r.O.Add(r.D)).Sub(o0)
